@@ -126,7 +126,7 @@ pub open spec fn intersects(r: ZoomRecord, chrom: u32, start: u32, end: u32) -> 
 //@sub /\*known_offset = block\.offset \+ block\.size;\n/ => "" min=1
 //@sub /Result<std::vec::IntoIter<ZoomRecord>, BBIReadError>/ => Result<Vec<ZoomRecord>, IoError> min=1
 //@sub /Ok\(records\.into_iter\(\)\)/ => Ok(records) min=1
-//@sub /assert\(\(len % \(4 \* 8\)\) == \(0\)\)/ => assert(((len as int) % (4int * 8)) == (0)) min=1
+//@sub /assert\(\(len % \((\d+) \* (\d+)\)\) (==|!=) \((\d+)\)\)/ => assert(((len as int) % (\1int * \2)) \3 (\4)) min=1
 //@sub /for _ in 0\.\.itemcount/ => for k__ in 0..itemcount min=2
 //@ret r
 //@sig
